@@ -346,6 +346,19 @@ func TestPropLayouts(t *testing.T) {
 	recPos.ClassN("layout family (enumerated completely)", n)
 }
 
+// TestPropDeep: every layout nested 0..24 levels deep in each kind of block (package oneline).
+func TestPropDeep(t *testing.T) {
+	shard, shards := ev.Shard()
+	n := 0
+	oneline.EachDeep(shard, shards, 24, func(name, src string) {
+		n++
+		if err := decide(src, nil, false); err != nil {
+			fail(t, src, fmt.Errorf("nested %s: %w", name, err))
+		}
+	})
+	recPos.ClassN("layouts nested 0..24 levels deep (enumerated completely)", n)
+}
+
 var cutAfter = []string{"if", "else", "else if", "for", "switch", "case", "default", "default:", "templ", "script", "css", "import", "package", "@", "{{", "...", "children", "range", "func", "={", "?={", "{!", "<!--", "<script", "<style", "</"}
 
 func TestPropTruncations(t *testing.T) {
